@@ -530,7 +530,9 @@ theorem allInv1 : ∀ fuel, AllInv1 fuel := by
       unfold startOp
       try simp only []
       split
-      · exact ih.stem _ _ _ hI
+      · split
+        · exact ih.fin _ _ _ hI
+        · exact ih.stem _ _ _ hI
       · split
         · exact ih.fin _ _ _ hI
         · split
